@@ -92,6 +92,7 @@ void *SimHeap::allocate(size_t bytes, size_t count, size_t elemSize, int domain,
   if (G.alloc_throw_point()) {
     log("a!", count ? count : bytes, -1);
     if (nullOnFault) return nullptr;
+    if (G.env_decision() & 1) throw SimFault();  // an allocator may fail with an exception type of its own
     throw std::bad_alloc();
   }
   int bi = place(bytes);
@@ -171,6 +172,7 @@ void *SimHeap::reallocate(void *p, size_t oldBytes, size_t newBytes, size_t newC
   if (G.alloc_throw_point()) {
     log("r!", newCount ? newCount : newBytes, (long)blocks_[bi].off);
     if (nullOnFault) return nullptr;
+    if (G.env_decision() & 1) throw SimFault();
     throw std::bad_alloc();
   }
   {
